@@ -61,3 +61,17 @@ Proof. exact c13_not_injective_outside. Qed.
 
 Check C13_ser_injective : forall r1 r2, producible r1 -> producible r2 -> ser_rule r1 = ser_rule r2 -> r1 = r2.
 Check C13_parser_range : forall content rules, parse content = Ok rules -> Forall producible rules.
+
+(* ---- a rule's record is only ever derived from that rule's own record (round 4; Proofs/HistMono.v) ----
+   Every history file a build writes is written under the name of a rule of the plan, extends the file main read under
+   THAT name before any worker ran, and differs from it in at most one key: results recorded for one rule cannot be filed
+   under another. (The mutants C04-4 / C13-4 are excluded by this statement: HistMono.hm_shifted_not_own.) *)
+From Ruler Require Import Bytes AList RuleSyntax TopoSort World Work Build Ops Inv InvFacts Acts Sched Fine C01Facts HistMono.
+
+Theorem C13_each_history_is_written_from_its_own : forall (w : world sym) rp goal r h',
+  In (AWriteHist r h') (build_acts_sym w rp goal) ->
+  exists w1 tbl pack n h,
+    init_dir sym w = Ok (w1, tbl) /\ get_nodes sym w1 rp goal = Ok pack /\ In n (p_nodes pack) /\ r = n_rule n /\
+    read_history sym sym_eqb SRule w1 r = Some h /\ hist_le_sym h h' /\ hist_diff1_sym h h'.
+Proof. exact build_writes_each_history_from_its_own_sym. Qed.
+Print Assumptions C13_each_history_is_written_from_its_own.
